@@ -18,7 +18,7 @@
    size and every k < 64, simple path and chunk / transpose / chunk path: [C15_in_place_ok]. *)
 From Coq Require Import NArith ZArith List Lia.
 From Verif Require Import Base.Field Base.Poly Model.FieldGeneric Model.BitRev Model.FFT Model.PolyOps
-  Model.Fp Model.C15Run Proofs.BitRev Proofs.FFT Proofs.PolyOps.
+  Model.Fp Model.C15Run Proofs.BitRev Proofs.FFT Proofs.PolyOps Proofs.Interpolant.
 Import ListNotations.
 
 (* ------------------------------------------------------------------------------------------ *)
@@ -319,8 +319,8 @@ Proof. exact @interpolate2_spec. Qed.
    early-return branch); off the nodes the value is sum_i w_i y_i prod_{j<>i} (x - x_j)
    (C15_interpolate_off_node_spec), and the barycentric weights satisfy w_i prod_{j<>i} (x_i - x_j) = 1
    (C15_barycentric_weights_spec) - together: the value of the Lagrange interpolant.
-   Still missing (correspondence and Python oracle only): `interpolant(points)` = Some c with
-   length c <= n and peval c x_i = y_i. *)
+   `interpolant(points)` itself: C15_interpolant_spec below (total, degree bound, passes through
+   every point, for every number of points). *)
 Theorem C15_interpolate_on_node_partial : forall (F : Type) (FO : FieldOps F) (FL : FieldLaws F)
   (points : list (F * F)) (w : list F) i x_i y_i,
   nth_error points i = Some (x_i, y_i) ->
@@ -343,6 +343,36 @@ Theorem C15_interpolate_off_node_spec : forall (F : Type) (FO : FieldOps F) (FL 
                                    (fproduct (map (fun j => fsub x (px points j)) (others (length points) i))))
                     (seq 0 (length points)))).
 Proof. exact @interpolate_off_node_spec. Qed.
+
+(* `interpolate` is, for weights with w_i prod_{j<>i}(x_i - x_j) = 1 (those barycentric_weights returns),
+   the evaluation of ONE polynomial of fewer than n coefficients at every x, on the nodes (early
+   return) and off them (barycentric formula) *)
+Theorem C15_interpolate_is_lagrange_eval : forall (F : Type) (FO : FieldOps F) (FL : FieldLaws F)
+  (points : list (F * F)) (w : list F),
+  length w = length points ->
+  (forall i, (i < length points)%nat ->
+     fmul (nth i w fzero) (fproduct (map (fun j => fsub (px points i) (px points j)) (others (length points) i))) = fone) ->
+  ((length (lagrange points w) <= length points)%nat) /\
+  (forall x, interpolate points x w = Some (peval (lagrange points w) x)).
+Proof.
+  intros F FO FL points w Hlen Hw. split.
+  - apply lagrange_length.
+  - now apply interpolate_is_lagrange_eval.
+Qed.
+
+(* `interpolant`: for pairwise distinct abscissae and a number of points whose next power of two fits
+   the two-adic subgroup (and a usize) the function does not panic, returns at most n coefficients
+   (the degree bound, after trim) and the polynomial passes through every point.  Every n >= 0,
+   not only powers of two. *)
+Theorem C15_interpolant_spec : forall (F : Type) (FO : FieldOps F) (FL : FieldLaws F) (TA : TwoAdic F) (TL : TwoAdicLaws F)
+  (points : list (F * F)),
+  (forall i j, (i < length points)%nat -> (j < length points)%nat -> i <> j -> px points i <> px points j) ->
+  (log2_ceil_nat (length points) <= ta_two_adicity)%nat ->
+  (log2_ceil_nat (length points) < 64)%nat ->
+  exists c, interpolant points = Some c /\
+            (length c <= length points)%nat /\
+            forall i, (i < length points)%nat -> peval c (px points i) = py points i.
+Proof. exact @interpolant_spec. Qed.
 
 (* ------------------------------------------------------------------------------------------ *)
 (* non-vacuity: the Goldilocks field satisfies the hypotheses, and a concrete transform *)
